@@ -145,8 +145,10 @@ def run(ctx):
 
 
 def replay(ctx, rep):
-    c = rep["input"]
+    c = rep.get("case") or rep.get("input")
+    if not isinstance(c, dict) or "start" not in c:
+        raise SystemExit("replay: re-run ./check C12 with VERIF_SEED=%s" % rep.get("seed"))
     res = run_child([c])[0] if c.get("allow_tf") else seqexec.run_sequence(c["case"], c["seed"], c["length"], c["start"], False, c.get("plan"))
     bad = [s for s in res["steps"] if s.get("broken")]
-    print("replay:", bad[0]["broken"] if bad else (res.get("roundtrip") or "well-formed after every step"))
-    return 1 if bad or res.get("roundtrip") else 0
+    print("replay:", bad[0]["broken"] if bad else (res.get("history") or res.get("roundtrip") or "well-formed after every step"))
+    return 1 if bad or res.get("roundtrip") or res.get("history") else 0
